@@ -122,6 +122,11 @@ type limits struct {
 	hardStep time.Duration // context ignored: re-exec the worker
 	softWall time.Duration
 	hardWall time.Duration
+	// fastStep replaces softStep for the rest of a function (in this shard) once
+	// stepCancelsForFast of its cases ran into softStep: functions with a jq level
+	// endless loop on a whole argument class (to_radix with base 1) would otherwise
+	// cost softStep for each of hundreds of tuples
+	fastStep time.Duration
 	softHeap uint64 // live heap bytes: cancel
 	hardRSS  uint64 // resident bytes: re-exec
 }
@@ -144,7 +149,12 @@ type worker struct {
 	curActive bool
 	curCancel context.CancelFunc
 	curReason string
+	curSoft   time.Duration
+
+	stepCancels map[string]int
 }
+
+const stepCancelsForFast = 3
 
 func (w *worker) session() (*fqrun.Session, error) {
 	if w.sess == nil {
@@ -195,7 +205,7 @@ func (w *worker) startWatchdog() {
 		for {
 			time.Sleep(20 * time.Millisecond)
 			w.mu.Lock()
-			active, start, cancel, reason, cpu0 := w.curActive, w.curStart, w.curCancel, w.curReason, w.curCPU
+			active, start, cancel, reason, cpu0, soft := w.curActive, w.curStart, w.curCancel, w.curReason, w.curCPU, w.curSoft
 			w.mu.Unlock()
 			if !active {
 				continue
@@ -210,8 +220,8 @@ func (w *worker) startWatchdog() {
 			}
 			if reason == "" {
 				why := ""
-				if el > w.lim.softStep {
-					why = "step limit " + w.lim.softStep.String() + " cpu"
+				if el > soft {
+					why = "step limit " + soft.String() + " cpu"
 				} else if wall > w.lim.softWall {
 					why = "step limit " + w.lim.softWall.String() + " wall"
 				} else if heap > w.lim.softHeap {
@@ -280,9 +290,13 @@ func (w *worker) selfRestart(why string) {
 	os.Exit(3)
 }
 
-func (w *worker) begin(idx int64, desc string, cancel context.CancelFunc) {
+func (w *worker) begin(idx int64, desc string, cancel context.CancelFunc, fn string) {
 	cpu := cpuTime() // ~1 us
 	w.mu.Lock()
+	w.curSoft = w.lim.softStep
+	if w.stepCancels[fn] >= stepCancelsForFast {
+		w.curSoft = w.lim.fastStep
+	}
 	w.curIdx, w.curDesc, w.curStart, w.curActive, w.curCancel, w.curReason = idx, desc, time.Now(), true, cancel, ""
 	w.curCPU = cpu
 	w.mu.Unlock()
@@ -501,7 +515,7 @@ func (w *worker) runChunk(c *chunk) {
 			idx := c.base + int64(k)
 			desc := caseShort(f, c.pool, tuples[k])
 			r.Case(idx, desc)
-			w.begin(idx, desc, cancel)
+			w.begin(idx, desc, cancel, f.Key.String())
 			var v any
 			var ok bool
 			pv, stack := core.Protect(func() { v, ok = it.Next() })
@@ -520,6 +534,9 @@ func (w *worker) runChunk(c *chunk) {
 					w.mu.Lock()
 					t.Evals++
 					t.Counts["inconclusive_cancelled"]++
+					if strings.HasPrefix(reason, "step limit") {
+						w.stepCancels[f.Key.String()]++
+					}
 					if len(t.Inconclusive) < 40 {
 						t.Inconclusive = append(t.Inconclusive, "cancelled ("+reason+"): "+desc)
 					}
@@ -596,7 +613,7 @@ func (w *worker) onResult(c *chunk, tp []int, v any) {
 func (w *worker) onPanic(c *chunk, tp []int, pv any, stack string) {
 	site := core.PanicSite(stack)
 	cr := mkCase(c.f, c.pool, tp)
-	sig := "panic:" + c.f.Key.String() + ":" + site
+	sig := "panic:" + c.f.Key.String() + ":" + site + ":" + normMsg(core.PanicString(pv))
 	w.mu.Lock()
 	w.t.Evals++
 	w.t.Counts["cases_go_panic"]++
@@ -619,11 +636,37 @@ func (w *worker) onPanic(c *chunk, tp []int, pv any, stack string) {
 	what := fmt.Sprintf("`%s` -> Go panic %q at %s (stand-alone reproduction %d/5); expected values or a catchable jq error",
 		caseShort(c.f, c.pool, tp), core.PanicString(pv), site, rep)
 	if rep == 0 {
-		sig = "panic-in-batch-only:" + c.f.Key.String() + ":" + site
+		sig = "panic-in-batch-only:" + c.f.Key.String() + ":" + site + ":" + normMsg(core.PanicString(pv))
 	}
 	w.mu.Lock()
 	defer w.mu.Unlock()
 	w.t.Viol = append(w.t.Viol, tviol{sig, what, cr})
+}
+
+// normMsg makes a panic message usable as part of a signature: numbers are
+// replaced (index values, lengths, addresses) and the text is cut.
+func normMsg(m string) string {
+	var sb strings.Builder
+	prevDigit := false
+	for _, c := range m {
+		if c >= '0' && c <= '9' {
+			if !prevDigit {
+				sb.WriteByte('#')
+			}
+			prevDigit = true
+			continue
+		}
+		prevDigit = false
+		if c == '\n' {
+			break
+		}
+		sb.WriteRune(c)
+	}
+	s := sb.String()
+	if len(s) > 80 {
+		s = s[:80]
+	}
+	return s
 }
 
 func (w *worker) onUncatchable(c *chunk, tp []int, e error) {
